@@ -9,7 +9,7 @@ import codec
 from props import c01
 
 PROP = "C11"
-LEAN_MODULES = ["Props.C11", "Props.C11F", "Props.Legacy", "Props.C11D"]
+LEAN_MODULES = ["Props.C11", "Props.C11F", "Props.Legacy", "Props.C11D", "Props.C11S"]
 RULE = (
     "case = (1-6 fields of mixed kinds, value list incl. runs of leading / trailing missing values, delimiter in ; , | tab :: ;; and delimiters with blanks such as ', ' '; ' ' | ', blank padding per token, a "
     "sequence of 1-6 further lines with short / exact / long token counts). One real Line(fields, delimiter=d): write "
@@ -26,7 +26,7 @@ ASSUMPTIONS = [
     "the delimiter is not made of white space only (tokens are stripped)",
 ] + c01.ASSUMPTIONS
 TRUSTED = c01.TRUSTED
-NOT_THEOREMS = ['delimiters that hold a blank, or share a character with a token without occurring in it as a substring (Props.C11.main and main_dom — the latter from the decidable domain, with the per-token law discharged for every kind — assume a blank-free delimiter whose characters do not occur in the tokens): the padding and splitting clauses are evaluated per case there']
+NOT_THEOREMS = ['nothing within the domain: Props.C11.main_full is the whole of Spec.C11.holds for every layout, value list and delimiter admitted by Spec.C11.inDomain (delimiters with blanks included: the guard decides that no token contains the delimiter and that splitting the joined tokens gives them back; Props.C11.split_snoc carries that over to the written and to the padded line); the per-token law is proved for every kind (tokLaw_of_domain)']
 EXHAUSTIVE = {"quick": False, "thorough": False}
 DELIMS = [";", ",", "|", "\t", "::", ";;", ";", ", ", "; ", " | ", " :", "\t;"]
 
